@@ -604,9 +604,13 @@ _jpeg_skip_scanlines(j_decompress_ptr cinfo, JDIMENSION num_lines)
      * state machine used to skip context rows.  Near the end of an iMCU row,
      * the next iMCU row may have already been entropy-decoded.  In this unique
      * case, we will read the next iMCU row if we cannot skip past it as well.
+     * (The next iMCU row is decoded as soon as the first row of the last row
+     * group of the current one is needed, so it has been decoded whenever less
+     * than one row group, i.e. fewer than max_v_samp_factor lines, are left.)
      */
     if ((num_lines < lines_left_in_iMCU_row + 1) ||
-        (lines_left_in_iMCU_row <= 1 && main_ptr->buffer_full &&
+        (lines_left_in_iMCU_row < (JDIMENSION)cinfo->max_v_samp_factor &&
+         main_ptr->buffer_full &&
          lines_after_iMCU_row < lines_per_iMCU_row + 1)) {
       read_and_discard_scanlines(cinfo, num_lines);
       return num_lines;
@@ -615,7 +619,8 @@ _jpeg_skip_scanlines(j_decompress_ptr cinfo, JDIMENSION num_lines)
     /* If the next iMCU row has already been entropy-decoded, make sure that
      * we do not skip too far.
      */
-    if (lines_left_in_iMCU_row <= 1 && main_ptr->buffer_full) {
+    if (lines_left_in_iMCU_row < (JDIMENSION)cinfo->max_v_samp_factor &&
+        main_ptr->buffer_full) {
       cinfo->output_scanline += lines_left_in_iMCU_row + lines_per_iMCU_row;
       lines_after_iMCU_row -= lines_per_iMCU_row;
     } else {
